@@ -94,6 +94,12 @@ def gen_cases(ctx):
             rst = [("s", victim)]
         victim["how"] = how
         add(streams, "incomplete-" + how, rst=rst)
+    # RST_STREAM on a stream whose message on that half is complete (a client cancelling a half-closed stream, a server
+    # resetting after its full response): the exchange is complete and is reported, nothing stays in the matcher
+    for i in range(10 if quick else 120):
+        streams = [H.gen_stream(rng, j, body_sizes=[0, 3, 100]) for j in range(rng.choice([1, 2, 3]))]
+        vict = rng.sample(streams, rng.randint(1, len(streams)))
+        add(streams, "rst-after-complete", rst=[(rng.choice("cs"), st) for st in vict], order=["cs", "sc"][i % 2])
     # h2c upgrade: the HTTP/1 request becomes stream 1
     for i in range(10 if quick else 80):
         k = rng.choice([1, 2, 3])
